@@ -1,6 +1,6 @@
 CONSTANTS
  Depth = 5
- Types = {"transaction", "body", "output", "value", "mint", "certificate", "witness_set", "native_script", "plutus_data", "auxiliary_data", "metadata", "metadatum", "input", "redeemers", "vkeywitness", "bootstrap_witness", "voting_procedures", "proposal", "script_ref", "drep", "protocol_param_update", "gov_action", "header_body", "header", "block", "operational_cert"}
+ Types = {"transaction", "body", "output", "value", "mint", "certificate", "witness_set", "native_script", "plutus_data", "auxiliary_data", "metadata", "metadatum", "input", "redeemers", "vkeywitness", "bootstrap_witness", "voting_procedures", "proposal", "script_ref", "drep", "protocol_param_update", "gov_action", "header_body", "header", "block", "operational_cert", "versioned_block"}
 INIT Init
 NEXT Next
 INVARIANT GeneratorConforms
